@@ -55,6 +55,19 @@ func genSpec(t *rapid.T, label string) J {
 	}
 	cfg.Schema.Core = true
 	doc = specgen.Spec(t, cfg)
+	// a definition that refers to itself makes `expand` / --with-expand order dependent (listed known finding,
+	// replayed from the corpus): excluded by construction
+	if defs, ok := doc["definitions"].(J); ok && os.Getenv("VERIF_C07_SELFREF") == "" {
+		for _, n := range work.SortedKeys(defs) {
+			self := "#/definitions/" + n
+			walk(defs[n], func(o J) {
+				if o["$ref"] == self {
+					delete(o, "$ref")
+					o["type"] = "string"
+				}
+			})
+		}
+	}
 	return doc
 }
 
@@ -98,6 +111,27 @@ func gen(t *rapid.T) Case {
 	}
 	c.Concurrent = chance(t, "concurrent", 60)
 	return c
+}
+
+func jobName(j Job) string {
+	if hasStr(j.Opts, "--with-expand") {
+		return "generate " + j.Kind + " --with-expand"
+	}
+	return "generate " + j.Kind
+}
+
+func walk(v any, f func(J)) {
+	switch x := v.(type) {
+	case J:
+		f(x)
+		for _, k := range work.SortedKeys(x) {
+			walk(x[k], f)
+		}
+	case A:
+		for _, e := range x {
+			walk(e, f)
+		}
+	}
 }
 
 func hasStr(xs []string, s string) bool {
@@ -237,23 +271,32 @@ func check(c Case) (o pbt.Outcome) {
 		specPaths[i] = filepath.Join(base, fmt.Sprintf("swagger%d.json", i))
 		_ = os.WriteFile(specPaths[i], s, 0o644)
 	}
-	newDir := func(tag string) string {
+	// all targets of one run live in one module (<run>/verifgen/t<job>) and every process works from the module
+	// root: import resolution of the generated code depends on the module around the target and on the
+	// working directory, which are inputs
+	newRoot := func(tag string) string {
 		d := filepath.Join(base, tag, work.ModuleName)
 		_ = os.MkdirAll(d, 0o755)
 		work.InitModule(d)
+		return d
+	}
+	jobDir := func(root string, job int) string {
+		d := filepath.Join(root, fmt.Sprintf("t%d", job))
+		_ = os.MkdirAll(d, 0o755)
 		return d
 	}
 	// Part A: every job, repeated in new processes
 	ref := make([]map[string]string, len(c.Jobs))
 	usable := make([]bool, len(c.Jobs))
 	for ji, j := range c.Jobs {
-		what := "generate " + j.Kind
+		what := jobName(j)
 		o.Class("job:" + j.Kind)
 		var trees []map[string]string
 		failed := false
 		for r := 0; r < repeats; r++ {
-			d := newDir(fmt.Sprintf("j%d-r%d", ji, r))
-			res := work.SwaggerGen(d, append([]string{"generate", j.Kind, "-q"}, jobArgs(j, specPaths[j.Spec], d)...)...)
+			root := newRoot(fmt.Sprintf("j%d-r%d", ji, r))
+			d := jobDir(root, ji)
+			res := work.SwaggerGen(root, append([]string{"generate", j.Kind, "-q"}, jobArgs(j, specPaths[j.Spec], d)...)...)
 			o.Evals++
 			if !res.OK() {
 				failed = true
@@ -301,18 +344,19 @@ func check(c Case) (o pbt.Outcome) {
 		var jobs []hj
 		var dirs []string
 		var idx []int
+		croot := newRoot("conc")
 		for ji, j := range c.Jobs {
 			if !usable[ji] {
 				continue
 			}
-			d := newDir(fmt.Sprintf("j%d-conc", ji))
+			d := jobDir(croot, ji)
 			jobs = append(jobs, hj{Kind: j.Kind, Args: jobArgs(j, specPaths[j.Spec], d)})
 			dirs = append(dirs, d)
 			idx = append(idx, ji)
 		}
 		if len(jobs) >= 2 {
 			in, _ := json.Marshal(jobs)
-			stdout, stderr, res := work.RunSplit(base, 10*time.Minute, in, helper)
+			stdout, stderr, res := work.RunSplit(croot, 10*time.Minute, in, helper)
 			o.Evals++
 			kinds := make([]string, len(jobs))
 			for i, j := range jobs {
@@ -337,7 +381,7 @@ func check(c Case) (o pbt.Outcome) {
 			}
 			if len(o.Violations) == 0 {
 				for i, d := range dirs {
-					compareTrees(&o, "generate "+jobs[i].Kind, "concurrent-differs", ref[idx[i]], readTree(d))
+					compareTrees(&o, jobName(c.Jobs[idx[i]]), "concurrent-differs", ref[idx[i]], readTree(d))
 				}
 			}
 			o.NT("concurrent|" + strings.Join(kinds, "+"))
